@@ -345,7 +345,7 @@ K_LONG_COMMENT = "ws:comment-above-8192"
 
 def many_deleted(ctx, h, schema, workdir, n):
     """a saved session whose DATA section starts with n entries marked deleted, followed by one live instance, opened in a fresh
-    STEPfile: the live instance must be there (oracle only; the model's statement is C16_too_many_deleted_witness / DelBound)"""
+    STEPfile: the live instance must be there (oracle only; the model: DelBound, C16_deleted_not_counted)"""
     t0 = schema.targets[0].upper()
     pop = [G.Inst(j + 1, [(t0, [("tok", "1"), ("null",), ("null",)])]) for j in range(n + 1)]
     path = os.path.join(workdir, f"many_{n}.wsf")
